@@ -110,7 +110,7 @@ inductive Sub (cfg : Cfg) (P : Prog) (n : Nat) : Task × St → Task × St → P
   | catchChain b cs σ v0 σ1 : run cfg P n (.ev b) σ = (.err v0, σ1) →
       Sub cfg P n (.ev (.try_ b cs none), σ) (.catches cs v0, σ1)
   | catchBody ty x body rest v0 σ : accepts ty v0 = true →
-      Sub cfg P n (.catches ((ty, x, body) :: rest) v0, σ) (.ev body, setLocal σ x v0)
+      Sub cfg P n (.catches ((ty, x, body) :: rest) v0, σ) (.ev body, bindCatch σ ty x v0)
   | catchSkip ty x body rest v0 σ : accepts ty v0 = false →
       Sub cfg P n (.catches ((ty, x, body) :: rest) v0, σ) (.catches rest v0, σ)
 
